@@ -241,9 +241,17 @@ class Repo:
         env = {}
         self._const_cache[modname] = env
         m = self.mod(modname)
+        # names re-bound at run time through a `global` statement are configuration, not constants
+        runtime = set()
+        for n in ast.walk(m.tree):
+            if isinstance(n, ast.Global):
+                runtime |= set(n.names)
+        self._runtime_globals = getattr(self, '_runtime_globals', {})
+        self._runtime_globals[modname] = runtime
         for s in m.star_imports:
             if s in self.modules:
                 env.update(self.consts(s))
+                runtime |= self._runtime_globals.get(s, set())
         for name, (tgt, orig) in m.imports.items():
             if orig is not None and tgt in self.modules:
                 sub = self.consts(tgt)
@@ -279,6 +287,8 @@ class Repo:
                     pass
         if modname == 'config.opcodes':
             self._replay_opcodes(env)
+        for n in runtime:
+            env.pop(n, None)
         return env
 
     def _replay_opcodes(self, env):
